@@ -134,6 +134,7 @@ def handle : Handler := fun op args =>
   | "c10.rot" => withArgs (do let d ← pInt; let n ← pNat; pure (d, n)) args fun (d, n) => ans (rotationGuard d n) (rotationReads d (ones n))
   -- 3. Interpolation
   | "c10.interp.ctor" => withArgs (do let xs ← pRats; let ys ← pRats; let xd ← pRat; let fd ← pRat; pure (xs, ys, xd, fd)) args fun (xs, ys, xd, fd) => ans (interpCtorGuard xs ys xd fd)
+  | "c10.interp.ctornan" => withArgs p2 args fun (_, _) => "err"   -- a NaN abscissa is never meaningful (fix f6c66e5: `!(x[i] > x[i-1])`)
   | "c10.interp.table" => withArgs (do let t ← pList pRats; let xd ← pRat; let fd ← pRat; pure (t, xd, fd)) args fun (t, xd, fd) => ans (interpTableGuard t xd fd)
   | "c10.interp.locate" | "c10.interp.eval" => withArgs (do let xs ← pRats; let xd ← pRat; let fd ← pRat; let v ← pRat; pure (xs, xd, fd, v)) args fun (xs, xd, fd, v) =>
       withObj xs xd fd fun o =>
@@ -206,6 +207,7 @@ def handle : Handler := fun op args =>
   | "c10.samplepoisson" => withArgs pRat args fun mu => ans (poissonMeanGuard mu)
   | "c10.samplepoissonv" => withArgs pRats args fun mus => ans (seqGuard (mus.map poissonMeanGuard))
   | "c10.metropolissigma" => withArgs pRat args fun sg => ans (poissonMeanGuard sg)
+  | "c10.pdfchibar" | "c10.cdfchibar" => withArgs (do let x ← pRat; let ws ← pRats; pure (x, ws)) args fun (_, ws) => ans (chiBarGuard ws)
   | "c10.llbinned" | "c10.lbinned" => withArgs p3 args fun (n, m, k) => ans (binnedGuard n m k) (binnedReads (ones n) (ones m) (ones k))
   | "c10.metropolis" => withArgs pNat args fun n => ans (metropolisGuard 2 n) (metropolisReads 2 (ones n))
   | "c10.metropolis2d" => withArgs pNat args fun n => ans (metropolisGuard 4 n) (metropolisReads 4 (ones n))
@@ -222,6 +224,10 @@ def handle : Handler := fun op args =>
   | "c10.importlist" => withArgs pBool args fun e => ans (importListGuard e)
   | "c10.importtable" | "c10.importtable.empty" => withArgs (do let e ← pBool; let r ← pNat; let c ← pNat; let nd ← pNat; pure (e, r, c, nd)) args fun (e, r, c, nd) =>
       ans (importTableRowsGuard e r c nd)
+  | "c10.importtable.fill" => withArgs (do let lens ← pNats; let blank ← pNat; let nd ← pNat; pure (lens, blank, nd)) args fun (lens, _, nd) =>
+      -- a file whose lines hold `lens` numbers each, followed by blank lines: rows = lines up to the last non-blank one
+      let rows := (lens.reverse.dropWhile (· = 0)).length
+      ans (importTableFillGuard (lens.foldl (· + ·) 0) rows nd)
   | "c10.checkerr" => withArgs pBool args fun c => ans (checkForErrorGuard c)
   | _ => none
 
